@@ -74,6 +74,20 @@ def register(M):
         M.log(ex, 'replace_all', src=s, out=tuple(out))
         return Obj('tstr', parts=tuple(out))
 
+    @reg('Regex::captures_iter')
+    def _(ex, info, a, dty):
+        # one Captures per placeholder of the template string, left to right (see the module comment)
+        re_ = str_of(ex, a[0])
+        if not (isinstance(re_, Obj) and re_.kind == 'regex' and re_.pattern == r'<([^>\s]+)>'):
+            raise Inconclusive('captures_iter on a regex other than the template regex: %r' % (re_,))
+        s = str_of(ex, a[1])
+        if isinstance(s, Obj) and s.kind in ('str', 'symstr'):
+            s = Obj('tstr', parts=(('val', s),))
+        if not (isinstance(s, Obj) and s.kind == 'tstr'):
+            raise Inconclusive('captures_iter on %r' % (s,))
+        caps = [Obj('captures', groups=(Obj('tstr', parts=(p,)), p[1])) for p in s.parts if p[0] == 'ph']
+        return Obj('iter', items=tuple(caps), ty=dty)
+
     @reg('Captures::get')
     def _(ex, info, a, dty):
         c = str_of(ex, a[0])
@@ -88,6 +102,18 @@ def register(M):
         if isinstance(m, Obj) and m.kind == 'match':
             return Ref(Cell(m.s), ())
         raise Inconclusive('Match::as_str on %r' % (m,))
+
+    @reg('ToString::to_string')
+    def _(ex, info, a, dty):
+        # Display of a named value: one symbolic string per value (two values may or may not display alike - string
+        # equality between them is a solver-decided Boolean)
+        v = str_of(ex, a[0])
+        if isinstance(v, Obj) and v.kind in ('str', 'symstr', 'tstr'):
+            return v
+        nm = getattr(v, 'name', None)
+        if nm:
+            return Obj('symstr', name='display(%s)' % nm)
+        return M.uninterpreted(ex, info, a, dty)
 
     @reg('Cow::into_owned', 'ToOwned::to_owned', 'String::as_str', 'String::as_mut_str')
     def _(ex, info, a, dty):
